@@ -41,7 +41,7 @@ pub fn property() -> Property {
   Property {
     id: "C11",
     level: "exploration",
-    rule: "histories of 5-80 discovery events over 1-3 remote participants x 1-3 endpoints each (reader \
+    rule: "histories of 5-80 discovery events (and the creation of some local endpoints in the middle of the history) over 1-3 remote participants x 1-3 endpoints each (reader \
            or writer, topic A or B, QoS compatible or incompatible, fixed per endpoint): participant \
            announced / re-announced, endpoint announced / re-announced / disposed, participant \
            disposed, participant timed out (participant_cleanup with a virtual clock) and found again; \
@@ -73,6 +73,8 @@ enum Ev {
   EndpointDispose(usize, usize),
   ParticipantDispose(usize),
   ParticipantTimeout(usize),
+  /// a local reader / writer is created only now, in the middle of the history
+  AddLocal(usize),
 }
 
 #[derive(Clone, Debug)]
@@ -82,6 +84,12 @@ struct REndpoint {
   topic: usize,
   compatible: bool,
   announced: bool,
+  /// model of the DiscoveryDB: in the table of external endpoints / in the attic
+  in_db: bool,
+  in_attic: bool,
+  /// its participant was disposed while this endpoint sat in the attic: whether a later
+  /// reappearance makes it known again is not defined by the statement
+  uncertain: bool,
 }
 
 struct Local {
@@ -93,8 +101,52 @@ struct Local {
   writer_status: Option<StatusChannelReceiver<DataWriterStatus>>,
   total: i32,
   incompat: i32,
+  /// the remote endpoints this local endpoint must be matched with (model)
+  matched: BTreeSet<GUID>,
   // keep application ends alive
   _keep: Box<dyn std::any::Any>,
+}
+
+fn make_local(dp: &mut DPEventLoop, my_prefix: GuidPrefix, i: usize, is_reader: bool, topic: usize) -> Local {
+  let cap = 512;
+  if is_reader {
+    let eid = rig::user_reader_eid(i as u8 + 1, true);
+    let guid = GUID::new(my_prefix, eid);
+    let (ing, mut rr) = rig::reader_ingredients(guid, TOPICS[topic], &local_qos(), false, cap);
+    dp.verif_add_local_reader(ing);
+    let mut ends = rr.ends.take().unwrap();
+    let status_rx = std::mem::replace(&mut ends.status_rx, sync_status_channel(1).unwrap().1);
+    Local {
+      guid,
+      eid,
+      is_reader,
+      topic,
+      reader_status: Some(status_rx),
+      writer_status: None,
+      total: 0,
+      incompat: 0,
+      matched: BTreeSet::new(),
+      _keep: Box::new((ends, rr)),
+    }
+  } else {
+    let eid = rig::user_writer_eid(i as u8 + 1, true);
+    let guid = GUID::new(my_prefix, eid);
+    let (ing, ends) = rig::writer_ingredients(guid, TOPICS[topic], &local_qos(), 16, cap);
+    dp.verif_add_local_writer(ing);
+    let rig::WriterEnds { cmd_tx, status_rx, waker } = ends;
+    Local {
+      guid,
+      eid,
+      is_reader,
+      topic,
+      reader_status: None,
+      writer_status: Some(status_rx),
+      total: 0,
+      incompat: 0,
+      matched: BTreeSet::new(),
+      _keep: Box::new((cmd_tx, waker)),
+    }
+  }
 }
 
 const TOPICS: [&str; 2] = ["rig_topic_a", "rig_topic_b"];
@@ -175,47 +227,11 @@ pub fn run(_scenario: u32, choices: &[u8], _strict: bool) -> Outcome {
 
   // ---------------------------------------------------------------- local endpoints
   let nlocal = 1 + c.pick(4);
-  let cap = 512;
-  let mut locals: Vec<Local> = Vec::new();
-  for i in 0..nlocal {
-    let is_reader = c.bool();
-    let topic = c.pick(2);
-    if is_reader {
-      let eid = rig::user_reader_eid(i as u8 + 1, true);
-      let guid = GUID::new(my_prefix, eid);
-      let (ing, mut rr) = rig::reader_ingredients(guid, TOPICS[topic], &local_qos(), false, cap);
-      dp.verif_add_local_reader(ing);
-      let mut ends = rr.ends.take().unwrap();
-      let status_rx = std::mem::replace(&mut ends.status_rx, sync_status_channel(1).unwrap().1);
-      locals.push(Local {
-        guid,
-        eid,
-        is_reader,
-        topic,
-        reader_status: Some(status_rx),
-        writer_status: None,
-        total: 0,
-        incompat: 0,
-        _keep: Box::new((ends, rr)),
-      });
-    } else {
-      let eid = rig::user_writer_eid(i as u8 + 1, true);
-      let guid = GUID::new(my_prefix, eid);
-      let (ing, ends) = rig::writer_ingredients(guid, TOPICS[topic], &local_qos(), 16, cap);
-      dp.verif_add_local_writer(ing);
-      let rig::WriterEnds { cmd_tx, status_rx, waker } = ends;
-      locals.push(Local {
-        guid,
-        eid,
-        is_reader,
-        topic,
-        reader_status: None,
-        writer_status: Some(status_rx),
-        total: 0,
-        incompat: 0,
-        _keep: Box::new((cmd_tx, waker)),
-      });
-    }
+  // (is_reader, topic, created late)
+  let local_plan: Vec<(bool, usize, bool)> = (0..nlocal).map(|_| (c.bool(), c.pick(2), c.chance(90))).collect();
+  let mut locals: Vec<Option<Local>> = Vec::new();
+  for (i, (is_reader, topic, late)) in local_plan.iter().enumerate() {
+    locals.push(if *late { None } else { Some(make_local(&mut dp, my_prefix, i, *is_reader, *topic)) });
   }
   if nlocal >= 2 {
     o.label("several-local-endpoints");
@@ -244,6 +260,9 @@ pub fn run(_scenario: u32, choices: &[u8], _strict: bool) -> Outcome {
         topic: c.pick(2),
         compatible: !c.chance(70),
         announced: false,
+        in_db: false,
+        in_attic: false,
+        uncertain: false,
       });
     }
     remotes.push(v);
@@ -266,9 +285,15 @@ pub fn run(_scenario: u32, choices: &[u8], _strict: bool) -> Outcome {
       _ => Ev::ParticipantTimeout(p),
     });
   }
+  for (li, (_, _, late)) in local_plan.iter().enumerate() {
+    if *late {
+      let pos = c.pick(evs.len() + 1);
+      evs.insert(pos, Ev::AddLocal(li));
+    }
+  }
   o.sample = format!(
     "local={:?} remote={:?} events={evs:?}",
-    locals.iter().map(|l| (l.is_reader, l.topic)).collect::<Vec<_>>(),
+    local_plan,
     remotes
       .iter()
       .map(|v| v.iter().map(|e| (e.is_reader, e.topic, e.compatible)).collect::<Vec<_>>())
@@ -302,6 +327,14 @@ pub fn run(_scenario: u32, choices: &[u8], _strict: bool) -> Outcome {
         if !participant_known[*p] && evno > np {
           o.label("participant-found-again");
         }
+        if !participant_known[*p] {
+          for r in remotes[*p].iter_mut() {
+            if r.in_attic {
+              r.in_attic = false;
+              r.in_db = true;
+            }
+          }
+        }
         participant_known[*p] = true;
       }
       Ev::EndpointAnnounce(p, e) => {
@@ -320,10 +353,11 @@ pub fn run(_scenario: u32, choices: &[u8], _strict: bool) -> Outcome {
             .update_publication(&discovery_rig::writer_data(r.guid, TOPICS[r.topic], &q, vec![rig::node_locator(80 + *p as u8)]));
           dp.verif_remote_writer_discovered(&dwd);
         }
-        for (li, l) in locals.iter().enumerate() {
+        for (li, l) in locals.iter_mut().enumerate() {
+          let Some(l) = l else { continue };
           if matches(l, &r) {
             if r.compatible {
-              if !r.announced {
+              if l.matched.insert(r.guid) {
                 expect[li].push(Exp::Matched(r.guid));
                 if unmatched_once.contains(&(li, r.guid)) {
                   o.label("re-match");
@@ -338,10 +372,41 @@ pub fn run(_scenario: u32, choices: &[u8], _strict: bool) -> Outcome {
             }
           }
         }
+        remotes[*p][*e].in_db = true;
+        remotes[*p][*e].uncertain = false;
         remotes[*p][*e].announced = true;
+      }
+      Ev::AddLocal(li) => {
+        let (is_reader, topic, _) = local_plan[*li];
+        if remotes.iter().flatten().any(|r| r.uncertain && r.in_db && r.is_reader != is_reader && r.topic == topic) {
+          o.label("stopped-at-undefined-reappearance");
+          break;
+        }
+        let mut l = make_local(&mut dp, my_prefix, *li, is_reader, topic);
+        // every endpoint the DiscoveryDB holds on this topic, in GUID order
+        let mut known: Vec<&REndpoint> = remotes.iter().flatten().filter(|r| r.in_db && matches(&l, r)).collect();
+        known.sort_by_key(|r| r.guid);
+        for r in known {
+          if r.compatible {
+            l.matched.insert(r.guid);
+            expect[*li].push(Exp::Matched(r.guid));
+            o.label("late-local-endpoint-matches-known-remote");
+            nontrivial = true;
+          } else {
+            expect[*li].push(Exp::Incompatible(r.guid));
+          }
+        }
+        o.label("late-local-endpoint");
+        locals[*li] = Some(l);
       }
       Ev::EndpointDispose(p, e) => {
         let r = remotes[*p][*e].clone();
+        if r.in_attic {
+          // SEDP traffic of a participant that is considered lost is not processed
+          // (its built-in writers are unmatched): this event cannot happen here
+          o.label("dispose-while-in-attic-skipped");
+          continue;
+        }
         if r.is_reader {
           db.write().unwrap().remove_topic_reader(r.guid);
           dp.verif_remote_reader_lost(r.guid);
@@ -349,12 +414,14 @@ pub fn run(_scenario: u32, choices: &[u8], _strict: bool) -> Outcome {
           db.write().unwrap().remove_topic_writer(r.guid);
           dp.verif_remote_writer_lost(r.guid);
         }
-        for (li, l) in locals.iter().enumerate() {
-          if matches(l, &r) && r.compatible && r.announced {
+        for (li, l) in locals.iter_mut().enumerate() {
+          let Some(l) = l else { continue };
+          if l.matched.remove(&r.guid) {
             expect[li].push(Exp::Unmatched(r.guid));
             unmatched_once.insert((li, r.guid));
           }
         }
+        remotes[*p][*e].in_db = false;
         remotes[*p][*e].announced = false;
       }
       Ev::ParticipantDispose(p) | Ev::ParticipantTimeout(p) => {
@@ -405,10 +472,11 @@ pub fn run(_scenario: u32, choices: &[u8], _strict: bool) -> Outcome {
         };
         if lost {
           participant_known[*p] = false;
-          for (li, l) in locals.iter().enumerate() {
+          for (li, l) in locals.iter_mut().enumerate() {
+            let Some(l) = l else { continue };
             let mut n = 0;
             for r in remotes[*p].iter() {
-              if matches(l, r) && r.compatible && r.announced {
+              if l.matched.remove(&r.guid) {
                 expect[li].push(Exp::Unmatched(r.guid));
                 unmatched_once.insert((li, r.guid));
                 n += 1;
@@ -419,6 +487,16 @@ pub fn run(_scenario: u32, choices: &[u8], _strict: bool) -> Outcome {
               o.label("participant-loss-with-several-matches");
             }
           }
+          let timed_out = matches!(ev, Ev::ParticipantTimeout(_));
+          for r in remotes[*p].iter_mut() {
+            if !timed_out && r.in_attic {
+              r.uncertain = true;
+            }
+            if r.in_db && timed_out {
+              r.in_attic = true;
+            }
+            r.in_db = false;
+          }
           for r in remotes[*p].iter_mut() {
             r.announced = false;
           }
@@ -428,12 +506,8 @@ pub fn run(_scenario: u32, choices: &[u8], _strict: bool) -> Outcome {
 
     // ---- matched sets
     for (li, l) in locals.iter_mut().enumerate() {
-      let want: BTreeSet<GUID> = remotes
-        .iter()
-        .flatten()
-        .filter(|r| l.is_reader != r.is_reader && l.topic == r.topic && r.compatible && r.announced)
-        .map(|r| r.guid)
-        .collect();
+      let Some(l) = l else { continue };
+      let want: BTreeSet<GUID> = l.matched.clone();
       let got: BTreeSet<GUID> = if l.is_reader {
         match dp.verif_reader(l.eid) {
           Some(r) => r.verif_matched_writers().into_iter().collect(),
@@ -462,6 +536,7 @@ pub fn run(_scenario: u32, choices: &[u8], _strict: bool) -> Outcome {
             Ev::EndpointDispose(..) => "endpoint-dispose",
             Ev::ParticipantDispose(_) => "participant-dispose",
             Ev::ParticipantTimeout(_) => "participant-timeout",
+            Ev::AddLocal(_) => "local-endpoint-created",
           },
           format!(
             "event {evno} {ev:?}: local {} {li} on topic {}: matched with {extra:?} that are not announced/compatible, not matched with {missing:?}",
